@@ -268,7 +268,9 @@ def t_unit(tr, ty, name, dims, storage, g):
 def t_ordering(tr, ty, name, dims, storage, g):
     if "atomic" in ty.full:
         return UnitN(ty, name, dims, storage)
-    return tr.make_enum(ty, name, dims, storage, [("Less", []), ("Equal", []), ("Greater", [])], g)
+    e = tr.make_enum(ty, name, dims, storage, [("Less", []), ("Equal", []), ("Greater", [])], g)
+    e.discr_values = [255, 0, 1]       # cmp::Ordering is #[repr(i8)]: Less = -1 (printed as 255 in MIR switch targets)
+    return e
 
 
 def t_oncelock(tr, ty, name, dims, storage, g):
@@ -933,13 +935,13 @@ def m_minmax(tr, c):
     c.ret(VScalar(f"(({a.expr}) {op} ({b.expr}) ? ({a.expr}) : ({b.expr}))", a.ctype))
 
 
-@model(rx(r"(core::num::<impl )?(usize|u64|u8|u32)>?::saturating_sub"))
+@model(rx(r"(core::num::<impl )?(usize|u64|u8|u32|u128|u16)>?::saturating_sub"))
 def m_sat_sub(tr, c):
     a, b = tr.as_scalar(c.args[0]), tr.as_scalar(c.args[1])
     c.ret(VScalar(f"(({a.expr}) > ({b.expr}) ? ({a.expr}) - ({b.expr}) : 0)", a.ctype))
 
 
-@model(rx(r"(core::num::<impl )?(usize|u64|u8|u32)>?::saturating_add"))
+@model(rx(r"(core::num::<impl )?(usize|u64|u8|u32|u128|u16)>?::saturating_add"))
 def m_sat_add(tr, c):
     a, b = tr.as_scalar(c.args[0]), tr.as_scalar(c.args[1])
     t = tr.tmp(a.ctype, "sa")
@@ -947,7 +949,7 @@ def m_sat_add(tr, c):
     c.ret(VScalar(f"(({t}) < ({a.expr}) ? ({a.ctype})~({a.ctype})0 : {t})", a.ctype))
 
 
-@model(rx(r"(core::num::<impl )?(usize|u64|u8|u32)>?::checked_add"))
+@model(rx(r"(core::num::<impl )?(usize|u64|u8|u32|u128|u16)>?::checked_add"))
 def m_checked_add(tr, c):
     a, b = tr.as_scalar(c.args[0]), tr.as_scalar(c.args[1])
     t = tr.tmp(a.ctype, "ca")
@@ -955,7 +957,7 @@ def m_checked_add(tr, c):
     ret_option_scalar(c, f"!({t} < ({a.expr}))", t)
 
 
-@model(rx(r"(core::num::<impl )?(usize|u64|u8|u32)>?::checked_sub"))
+@model(rx(r"(core::num::<impl )?(usize|u64|u8|u32|u128|u16)>?::checked_sub"))
 def m_checked_sub(tr, c):
     a, b = tr.as_scalar(c.args[0]), tr.as_scalar(c.args[1])
     ret_option_scalar(c, f"({a.expr}) >= ({b.expr})", f"(({a.ctype})(({a.expr}) - ({b.expr})))")
@@ -1182,7 +1184,8 @@ def m_fn_call(tr, c):
 
 
 def t_controlflow(tr, ty, name, dims, storage, g):
-    return tr.make_enum(ty, name, dims, storage, [("Continue", [ty.args[1]]), ("Break", [ty.args[0]])], g)
+    cont = [ty.args[1]] if len(ty.args) > 1 else []          # ControlFlow<B, C = ()>
+    return tr.make_enum(ty, name, dims, storage, [("Continue", cont), ("Break", [ty.args[0]])], g)
 
 
 @model("<Result as Try>::branch", doc="`?` on Result: Continue(v) for Ok(v), Break(Err(e)) for Err(e)")
